@@ -83,6 +83,11 @@ CHECKS = {
             "Random histories of define/redefine/unalias/list/show/use with names over [A-Za-z0-9_.-]+ and values with options, quoted blanks, pipes, other alias names and self reference; uses at line start, after | ; &&, in every stage of a pipeline, and as non-first word.",
             "expected argv = shell-split alias value + remaining words",
             "DESIGN.md 3 C17"),
+    "C16": ("exploration",
+            "runtime monitoring, differential: the same helper-based line is run through -c, a script, a function body, a sourced file and a pty prompt in identically prepared directories; the observation tuples (helper records incl. stdin bytes, files, status) must equal the -c tuple",
+            "Lines from the generators of C01 C03 C04 C10 C11 C12 (no positional parameters) are replayed through the entry points; one third also through a live pty session.",
+            "oracle is equality with -c, no model; records compared as sorted multisets",
+            "DESIGN.md 3 C16"),
 }
 
 NOT_YET = "check not built yet (work in progress); runtime monitoring is applicable and planned, see DESIGN.md section 3"
